@@ -311,7 +311,7 @@ def rule_R19_4(ctx):
                 continue
             if "fmt::rt::Argument" in full:
                 sinks.append(("formatted", c.loc))
-            elif res.endswith("new_int") or "PartialOrd" in (c.declared or "") or "::Ord::" in (c.declared or ""):
+            elif __import__("anchors").ctor_variants(prog, res) == {"Int"} or "PartialOrd" in (c.declared or "") or "::Ord::" in (c.declared or ""):
                 sinks.append(("ordered/integer use via %s" % res.split("::")[-1], c.loc))
             elif "BTreeMap" in full or "BTreeSet" in full:
                 sinks.append(("ordered container key", c.loc))
